@@ -61,6 +61,8 @@ package gnosis
 //@   ensures ret0 == 0 ==> acceptedKeysG(keysOf(msg))
 //@ func (*DecryptionKeysHandler).HandleMessage
 //@   requires h != nil && isKeysMsg(msg) && acceptedKeysG(keysOf(msg))
+//@   // C19: processing a keys message releasing k identities at pointer p sets the pointer to p+k-1, age 0
+//@   ensures ret1 == nil ==> (evcount("setTxPointer") == old(evcount("setTxPointer")) + 1 && evarg("setTxPointer", 1, old(evcount("setTxPointer"))) == gnosisOf(keysOf(msg)).TxPointer + len(keysOf(msg).Keys) - 1 && evarg("setTxPointer", 2, old(evcount("setTxPointer"))) == 0 && evarg("setTxPointer", 3, old(evcount("setTxPointer"))))
 //@
 //@ pred sharesOf(msg) := as(msg, "*p2pmsg.DecryptionKeyShares")
 //@ pred gnosisShareOf(k) := as(k.Extra, "*p2pmsg.DecryptionKeyShares_Gnosis").Gnosis
@@ -90,4 +92,42 @@ package gnosis
 //@ func (*SequencerSyncer).syncRange
 //@   requires s != nil && s.DBPool != nil && s.ExecutionClient != nil && s.Contract != nil && s.SecondsPerSlot > 0
 //@   ensures ret0 == nil ==> evcount("commit") == old(evcount("commit")) + 1
+//@   opt frame = off
+//@
+//@ // ---- C19: identities requested per slot and the transaction pointer ----------------------------------------
+//@ // cumulative gas of the first n queued transactions
+//@ recfn gasSum(g Arr, off Int, n Int) Int := ite(n <= 0, 0, gasSum(g, off, n - 1) + g[off + n - 1])
+//@ pred gasOf(events, n) := gasSum(elemsof(events, "GasLimit"), offof(events), n)
+//@
+//@ // The requested identities are the slot identity plus the identities of the longest prefix of the queue
+//@ // (from the transaction pointer) whose cumulative gas stays within the encrypted gas limit - but at least
+//@ // one transaction if one is queued; the list is then sorted.
+//@ func (*Keyper).getDecryptionIdentityPreimages
+//@   requires kpr != nil && kpr.config != nil && kpr.config.Gnosis != nil && kpr.config.Gnosis.MinGasPerTransaction >= 1 && kpr.config.Gnosis.EncryptedGasLimit <= 9223372036854775807
+//@   ensures ret1 == nil ==> (len(ret0) >= 1 && len(ret0) <= len(events) + 1)
+//@   ensures ret1 == nil ==> (len(events) >= 1 ==> len(ret0) >= 2)
+//@   ensures ret1 == nil ==> (len(ret0) >= 3 ==> gasOf(events, len(ret0) - 1) <= kpr.config.Gnosis.EncryptedGasLimit)
+//@   ensures ret1 == nil ==> (len(ret0) - 1 < len(events) ==> gasOf(events, len(ret0)) > kpr.config.Gnosis.EncryptedGasLimit)
+//@   invariant len(identityPreimages) == rangeindex + 2 && (fresh(identityPreimages))
+//@   invariant gas == gasOf(events, rangeindex + 1) && gas <= 9223372036854775807
+//@   invariant rangeindex >= 1 ==> gasOf(events, rangeindex + 1) <= kpr.config.Gnosis.EncryptedGasLimit
+//@   invariant forall j :: 0 <= j && j < len(events) ==> events[j].GasLimit >= 0
+//@   opt frame = off
+//@
+//@ // sorting returns a fresh list of the same length
+//@ func sortIdentityPreimages
+//@   ensures len(ret0) == len(identityPreimages) && (fresh(ret0) || len(ret0) == 0)
+//@
+//@ // After a restart or when keys have been missing for too long the pointer falls back to the queue length;
+//@ // a missing row is initialised with pointer 0 and age 0.
+//@ func getTxPointer
+//@   requires db != nil
+//@   ensures ret1 == nil ==> ret0 == ite(!rowExists(eon), 0, ite(rowAgeValid(eon) && rowAge(eon) <= maxTxPointerAge, rowValue(eon), queueLen(eon)))
+//@   ensures (ret1 == nil && !rowExists(eon)) ==> (evcount("setTxPointer") == old(evcount("setTxPointer")) + 1 && evarg("setTxPointer", 1, old(evcount("setTxPointer"))) == 0 && evarg("setTxPointer", 2, old(evcount("setTxPointer"))) == 0 && evarg("setTxPointer", 3, old(evcount("setTxPointer"))))
+//@   opt frame = off
+//@
+//@ // After a keys message releasing k identities at pointer p is processed, the pointer is p+k-1 with age 0
+//@ func (*MessagingMiddleware).advanceTxPointer
+//@   requires i != nil && msg != nil && typeis(msg.Extra, "*p2pmsg.DecryptionKeys_Gnosis") && wfExtraKeys(msg) && gnosisOf(msg) != nil && gnosisOf(msg).TxPointer <= 2147483647 && len(msg.Keys) >= 1 && len(msg.Keys) <= MAXMSG
+//@   ensures ret0 == nil ==> (evcount("setTxPointer") == old(evcount("setTxPointer")) + 1 && evarg("setTxPointer", 1, old(evcount("setTxPointer"))) == gnosisOf(msg).TxPointer + len(msg.Keys) - 1 && evarg("setTxPointer", 2, old(evcount("setTxPointer"))) == 0 && evarg("setTxPointer", 3, old(evcount("setTxPointer"))))
 //@   opt frame = off
